@@ -42,6 +42,7 @@ type Bucket struct {
 	serial          uint32         // Serial number for logging
 	inMemory        bool           // True if it's an in-memory database
 	closed          bool           // represents state when it is closed
+	storeClosed     *atomic.Bool   // set when the underlying store is shut down; shared by all copies of the bucket
 }
 
 type collectionsMap = map[sgbucket.DataStoreNameImpl]*Collection
@@ -171,6 +172,7 @@ func OpenBucket(urlStr string, bucketName string, mode OpenMode) (b *Bucket, err
 		mutex:           &sync.Mutex{},
 		inMemory:        inMemory,
 		serial:          serial,
+		storeClosed:     &atomic.Bool{},
 	}
 	bucket.expManager = newExpirationManager(bucket.doExpiration)
 	defer func() {
@@ -390,6 +392,7 @@ func (b *Bucket) copy() *Bucket {
 		expManager:      b.expManager,
 		serial:          b.serial,
 		inMemory:        b.inMemory,
+		storeClosed:     b.storeClosed,
 	}
 	return r
 }
